@@ -13,6 +13,7 @@ import (
 	"zvh/engines/report"
 	"zvh/engines/alter"
 	"zvh/engines/snapshot"
+	"zvh/engines/cluster"
 	"zvh/engines/seq"
 	"zvh/engines/store"
 )
@@ -22,6 +23,7 @@ func init() {
 		ownsReplay[n] = true
 	}
 	engines["seq"] = seq.Engine{}
+	engines["cluster"] = cluster.Engine{}
 	engines["snapshot"] = snapshot.Engine{}
 	ownsReplay["alter"] = true
 	engines["alter"] = alter.Engine{}
